@@ -65,6 +65,33 @@ class Digits:
             cs += [d == 0 for d in self.D[max_digits:]]
         return cs
 
+    def domain(self, name):
+        """constraints selecting a sub-domain of n (all domains are stated in the evidence):
+        'low6'   : n < 10^6
+        'sparse' : units group free, thousands/millions/billions groups have a single digit (d4=d5=d7=d8=d10=d11=0)
+        'full9' / 'full12' : n < 10^9 / 10^12"""
+        cs = [z3.ULE(d, 9) for d in self.D]
+        zero = lambda idx: [self.D[i] == 0 for i in idx if i < self.n]
+        if name == 'low6':
+            cs += zero(range(6, 12))
+        elif name == 'low4':
+            cs += zero(range(4, 12))
+        elif name == 'low3':
+            cs += zero(range(3, 12))
+        elif name == 'low2':
+            cs += zero(range(2, 12))
+        elif name == 'sparse':
+            cs += zero([4, 5, 7, 8, 10, 11])
+        elif name == 'sparse9':
+            cs += zero([4, 5, 7, 8, 9, 10, 11])
+        elif name == 'full9':
+            cs += zero(range(9, 12))
+        elif name == 'full12':
+            pass
+        else:
+            raise ValueError(name)
+        return cs
+
     def group(self, k):
         """(hundreds, tens, units) digit terms of the k-th group of three"""
         return self.D[3 * k + 2], self.D[3 * k + 1], self.D[3 * k]
